@@ -103,6 +103,8 @@ func c18Exec(run *ev.Run, c ev.Case) {
 	c.Decode(&h)
 	r := rng(h.Seed, "c18")
 	cfg := defaultCfg(r)
+	cfg.XRC4 = true
+	cfg.Suites = append(append([]refbmc.Suite(nil), cfg.Suites...), refbmc.Suite{Auth: 1, Integ: 1, Conf: 2}, refbmc.Suite{Auth: 3, Integ: 4, Conf: 3})
 	su := stdSuites()[h.Suite%9]
 	se := NewScriptEnv(cfg, memtr.Window)
 	css := &refbmc.CipherSuiteServer{Channel: 1, Data: refbmc.EncodeSuiteRecords([]refbmc.SuiteRecord{{ID: 3, Auth: 1, Integs: []byte{1}, Confs: []byte{1}}, {ID: 17, Auth: 3, Integs: []byte{4}, Confs: []byte{1}}, {ID: 0x90, OEM: true, IANA: 77, Auth: 1, Integs: []byte{1, 2, 4}, Confs: []byte{1}}})}
@@ -127,12 +129,12 @@ func c18Exec(run *ev.Run, c ev.Case) {
 	prevKind := "start"
 	var trace []string
 	for step := 0; step < h.Steps; step++ {
-		kinds := []string{"dial-ok", "dial-bad", "open-ok", "open-wrongpw", "open-nosuite", "open-garbage", "sl-ok", "sl-busy-ok", "sl-lost-ok", "sl-cc", "sl-ctx-done"}
+		kinds := []string{"dial-ok", "dial-bad", "open-ok", "open-wrongpw", "open-nosuite", "open-garbage", "open-unimplemented", "sl-ok", "sl-busy-ok", "sl-lost-ok", "sl-cc", "sl-ctx-done", "sl-any", "sl-any"}
 		if len(conns) > 0 {
 			kinds = append(kinds, "conn-close")
 		}
 		if sess != nil {
-			kinds = []string{"cmd-ok", "cmd-ok", "cmd-cc", "cmd-busy-ok", "cmd-garbage-ok", "cmd-trunc", "cmd-lost", "cmd-serfail", "cmd-nobody-ok", "close-ok", "close-fail", "sl-ok", "dial-ok", "dial-bad", "cmd-ctx-done", "sl-cc"}
+			kinds = []string{"cmd-ok", "cmd-ok", "cmd-cc", "cmd-busy-ok", "cmd-garbage-ok", "cmd-trunc", "cmd-lost", "cmd-serfail", "cmd-nobody-ok", "close-ok", "close-fail", "sl-ok", "dial-ok", "dial-bad", "cmd-ctx-done", "sl-cc", "cmd-any", "cmd-any", "cmd-any", "sl-any"}
 		}
 		kind := kinds[r.Intn(len(kinds))]
 		if r.Intn(70) == 0 {
@@ -214,11 +216,15 @@ func c18Exec(run *ev.Run, c ev.Case) {
 				conns[i].srv.Close()
 				conns = append(conns[:i], conns[i+1:]...)
 				model.add("bmc_connections_open", "version=2.0", -1)
-			case "open-ok", "open-wrongpw", "open-nosuite", "open-garbage":
+			case "open-ok", "open-wrongpw", "open-nosuite", "open-garbage", "open-unimplemented":
 				opts := &bmc.V2SessionOpts{SessionOpts: bmc.SessionOpts{Username: cfg.Username, Password: cfg.Password, MaxPrivilegeLevel: ipmi.PrivilegeLevelAdministrator}, CipherSuites: []ipmi.CipherSuite{libSuite(su)}}
 				switch kind {
 				case "open-wrongpw":
 					opts.Password = []byte("nope")
+				case "open-unimplemented":
+					// the BMC completes the handshake for a suite whose confidentiality
+					// algorithm the library has no implementation of
+					opts.CipherSuites = []ipmi.CipherSuite{[]ipmi.CipherSuite{{AuthenticationAlgorithm: 1, IntegrityAlgorithm: 1, ConfidentialityAlgorithm: 2}, {AuthenticationAlgorithm: 3, IntegrityAlgorithm: 4, ConfidentialityAlgorithm: 3}}[r.Intn(2)]}
 				case "open-nosuite":
 					opts.CipherSuites = []ipmi.CipherSuite{{AuthenticationAlgorithm: 2, IntegrityAlgorithm: 2, ConfidentialityAlgorithm: 1}, {AuthenticationAlgorithm: 2, IntegrityAlgorithm: 1, ConfidentialityAlgorithm: 1}}
 					n := len(css.Data)/16 + 1
@@ -304,6 +310,21 @@ func c18Exec(run *ev.Run, c ev.Case) {
 					code = 0xff
 				}
 				command(se.ST, &ipmi.GetSystemGUIDCmd{}, []string{fmt.Sprintf("cc:%02x", code)}, make([]byte, 16), 16)
+			case "cmd-any", "sl-any":
+				// any of the library's commands, several of which share one NetFn/command pair under different names
+				var g genCmd
+				for {
+					g = genCommand(r, cmdKinds[r.Intn(len(cmdKinds))], 6)
+					if !g.SerFail && g.Label != "close" && g.Label != "setpriv" && g.Label != "ciphersuites" {
+						break
+					}
+				}
+				trace[len(trace)-1] += "(" + g.Label + ")"
+				var conn bmc.Connection = se.ST
+				if kind == "cmd-any" {
+					conn = sess
+				}
+				command(conn, g.Cmd, [][]string{nil, nil, {"cc:c1"}, {"busy"}, {"ccb:d4"}}[r.Intn(5)], g.OkBody, 0)
 			case "cmd-ok":
 				command(sess, &ipmi.GetDeviceIDCmd{}, nil, devid, 11)
 			case "cmd-nobody-ok":
